@@ -1000,11 +1000,13 @@ package url
 
 //@ func percentEncodeByte
 //@   requires setOK(tr)
-//@   ensures (tr != nil && !setHas(tr, b)) ==> result == utf8(b)   [C10]
-//@   ensures (tr == nil || setHas(tr, b)) ==> (len(result) == 3 && result[0] == '%' && result[1] == "0123456789ABCDEF"[b / 16] && result[2] == "0123456789ABCDEF"[b % 16])   [C10]
+//@   ensures result == specEncByte(b, tr == nil || setHas(tr, b))   [C10]
 
 //@ func percentEncodeString
 //@   requires setOK(tr)
+//@   ensures result == specEncBytes(s, len(s), bsBits(tr.bs), tr.allBelow, tr == nil, false)   [C10]
+//@   loop 1 modifies bufv(sb)
+//@   loop 1 invariant bufv(sb) == specEncBytes(s, $i, bsBits(tr.bs), tr.allBelow, tr == nil, false)
 
 //@ func (*parser).ToASCII
 //@   requires p != nil
